@@ -19,11 +19,11 @@ OOA = 'bridgepoint.ooaofooa:'
 
 
 def run(ctx):
-    nullable(ctx)
-    fresh(ctx)
-    bind(ctx)
-    return_rule(ctx)
-    enum_rule(ctx)
+    ctx.guard(nullable, ctx)
+    ctx.guard(fresh, ctx)
+    ctx.guard(bind, ctx)
+    ctx.guard(return_rule, ctx)
+    ctx.guard(enum_rule, ctx)
     ctx.assume('values computed by nested / recursive calls are not decided; only that each call has its own scope')
     return ('Nullable Node fields computed from the grammar actions and checked against every dereference of an accept() '
             'result in the interpreter; construction sites of walkers/symbol tables and absence of class/module level '
@@ -284,6 +284,39 @@ def bind(ctx):
             pm.match('interpret.run_function(metamodel, label, action, kwargs)', lam[0].body) is not None
         r.check(ok, '%s returns a keyword-only callable running the element\'s own action' % fn_name, fn, construct=OOA + fn_name, key='closure',
                 msg='%s does not return `lambda **kwargs: interpret.run_function(metamodel, label, action, kwargs)` for its own action text' % fn_name)
+    me = repo.func(OOA + 'mk_external_entity')
+    names_src = funcs_src = None
+    reorder = []
+    defs = {}
+    for st in body_without_doc(me):
+        if isinstance(st, ast.Assign) and isinstance(st.targets[0], ast.Name):
+            defs[st.targets[0].id] = st.value
+
+    def base(e):
+        e2 = e
+        while isinstance(e2, ast.Call) and dotted(e2.func) in ('sorted', 'reversed', 'list', 'tuple', 'set') and e2.args:
+            if dotted(e2.func) in ('sorted', 'reversed', 'set'):
+                reorder.append(src(e2)[:50])
+            e2 = e2.args[0]
+        if isinstance(e2, ast.Name) and e2.id in defs:
+            return base(defs[e2.id])
+        return e2
+    nt = [n for n in ast.walk(me) if isinstance(n, ast.Call) and dotted(n.func) == 'collections.namedtuple' and len(n.args) == 2]
+    if len(nt) != 1:
+        raise AnalysisError('%s: namedtuple construction of mk_external_entity not found' % loc(me))
+    nm = base(nt[0].args[1])
+    if isinstance(nm, (ast.ListComp, ast.GeneratorExp)) and src(nm.elt).endswith('.Name'):
+        names_src = src(base(nm.generators[0].iter))
+    for lp in [n for n in ast.walk(me) if isinstance(n, ast.For)]:
+        if any(isinstance(c, ast.Call) and dotted(c.func) == 'mk_bridge' for c in ast.walk(lp)):
+            funcs_src = src(base(lp.iter))
+    r.check(names_src is not None and names_src == funcs_src and not reorder,
+            'bridge names and bridge functions of an external entity come from one traversal in one order', me, construct=OOA + 'mk_external_entity',
+            key='ee-pairing', msg='mk_external_entity takes the bridge names from `%s` and the functions from `%s`%s: names and bodies are paired '
+                                  'by position, so a different order attaches a name to the wrong bridge body'
+                                  % (names_src, funcs_src, (' with reordering ' + ', '.join(reorder)) if reorder else ''))
+    r.check(pm.contains('return EE(*funcs)', me), 'the entity is the tuple of its bridge functions', me, construct=OOA + 'mk_external_entity', key='ee-build',
+            msg='mk_external_entity does not return EE(*funcs)')
     # mk_class installs operations / derived attributes under their modelled names
     mc = repo.func(OOA + 'mk_class')
     ok = False
